@@ -158,7 +158,9 @@ def gen_command(rng, m, cfg):
         if accs:
             a, b = rng.choice(accs)
             ad = m.addr[b['id']]
-            return call('bidib_send_cs_accessory', ad[0], ad[1], ad[2], a['addr'][1], a['addr'][0], 0, rb(rng), rb(rng), 0), None
+            # a raw port command says nothing about an aspect: the accessory's aspect name is unknown afterwards (the model must not demand
+            # that the name of an earlier high-level command survives)
+            return call('bidib_send_cs_accessory', ad[0], ad[1], ad[2], a['addr'][1], a['addr'][0], 0, rb(rng), rb(rng), 0), (lambda mm, i=a['id']: mm.set_dcc_state_id(i, 'unknown'))
     if cfg['trains'] and tos:
         t = rng.choice(cfg['trains'])
         to = rng.choice(tos)
@@ -180,7 +182,9 @@ def gen_scenario(ctx, k):
         # has been reset): it counts like any other message received since the reset
         for _ in range(rng.randrange(1, 4)):
             addr, t, data = gen_feedback(rng, m, cfg, nodes)
-            if t not in (C('MSG_NODE_LOST'), C('MSG_NODE_NEW')):
+            # only entities that start-up itself does not command (occupancy, boosters): for trains and accessories the order of the receiver's
+            # update and the main thread's own optimistic update of the initial values would be ambiguous in the log
+            if t in (C('MSG_BM_OCC'), C('MSG_BM_FREE'), C('MSG_BM_MULTIPLE'), C('MSG_BM_ADDRESS'), C('MSG_BM_CONFIDENCE'), C('MSG_BM_CURRENT'), C('MSG_BOOST_STAT'), C('MSG_BOOST_DIAGNOSTIC')):
                 sc.add(f'bus inject {C("MSG_SYS_ENABLE"):02x} 1 {model.build_msg(addr, 0, t, data).hex()}')
     sc.add(f'start {d} 0', 'quiesce', 'snap s0')
     hooks = {}
